@@ -25,6 +25,20 @@ RULE = ("random trees with unique rail names on a random subset of the non-load 
 ASSUMPTIONS = ["rail_rep() returning None when rails exist but none feeds a component is read as the empty listing"]
 
 
+def _twins(kind, args, extra):
+    comps = [{"name": "B", "kind": "source", "args": {"vo": 5.0}, "parents": []},
+             {"name": "R", "kind": "linreg", "args": {"vo": 3.3}, "parents": ["B"], "rail": "V3V3"},
+             {"name": "T1", "kind": kind, "args": dict(args), "parents": ["V3V3"]},
+             {"name": "T2", "kind": kind, "args": dict(args), "parents": ["R"]}]
+    if extra:
+        comps.append({"name": "X", "kind": "iload", "args": {"ii": 0.05}, "parents": ["V3V3"]})
+    return {"name": "twins", "comps": comps, "phases": {}}
+
+
+TWINS = [_twins("iload", {"ii": 0.1}, True), _twins("pload", {"pwr": 0.33}, False), _twins("rload", {"rs": 33.0}, True),
+         _twins("iload", {"ii": 0.1, "limits": {"ii": [0.0, 0.01]}}, True)]
+
+
 def gen_fn(rng):
     if rng.random() < 0.12:
         return gen.gen_system(rng, phases=0.3, p_rail=0.0, max_nodes=10)
@@ -94,6 +108,10 @@ def run(ctx):
     for k in load_known():
         if k["property"] == "C08" and k.get("status") == "open" and "witness_desc" in k:
             one(ctx, k["witness_desc"])
+    # scripted twins (no random draw): two components on one rail whose report cells are identical in every column - a rail sums its
+    # members, it does not de-duplicate them (seeded change C08-K); also twins that differ in the name only next to a third member
+    for twin in TWINS:
+        one(ctx, twin, {"vtol": 1e-10, "itol": 1e-10})
     n, skipped = ctx.n(200, 5000), 0
     for _ in range(n):
         kw = {"vtol": 1e-10, "itol": 1e-10} if ctx.rng.random() < 0.6 else {}       # also the default tolerances
